@@ -617,6 +617,8 @@ def fix_hoisted_closure_specs(text, log=None):
                 if flat and names:
                     spec = ts[k + 3:body[0]]
                     toks = [t[1] for t in spec]
+                    if pname in toks:
+                        names = {}   # the contract already speaks about the hoisted parameter: it was written for this form
                     for nm, proj in names.items():
                         for i in _var_positions(toks, nm):
                             edits.append((spec[i][2], spec[i][3], proj))
